@@ -82,8 +82,9 @@ func New(withService bool) (*Fixture, error) {
 		ts.Service.Config = *sc
 		ts.Service.Start()
 	}
-	ln, err := net.Listen("tcp", "127.0.0.1:0")
+	ln, err := listenLoopback()
 	if err != nil {
+		tsx.CloseTS(ts)
 		os.RemoveAll(dir)
 		return nil, err
 	}
@@ -154,11 +155,13 @@ func (f *Fixture) Operator(user string, event, sub int, info map[string]string) 
 
 // ---------------------------------------------------------------------------- quiescence
 
+// parked lists the goroutine states that mean "waiting for something from outside":
+// network input or a channel.  Mutex / semaphore / sleep states are transient (e.g. a
+// listener goroutine briefly waits on a runtime semaphore inside net.InterfaceByName
+// before it binds) and count as busy.
 var parked = map[string]bool{
-	"IO wait": true, "chan receive": true, "chan send": true, "select": true, "semacquire": true,
-	"sync.Mutex.Lock": true, "sync.RWMutex.RLock": true, "sync.RWMutex.Lock": true, "sync.Cond.Wait": true,
-	"sync.WaitGroup.Wait": true, "sleep": true, "chan receive (nil chan)": true, "chan send (nil chan)": true,
-	"select (no cases)": true,
+	"IO wait": true, "chan receive": true, "select": true,
+	"chan receive (nil chan)": true, "select (no cases)": true,
 }
 
 // Goroutines returns the stack dump of all goroutines, one string per goroutine.
@@ -256,7 +259,7 @@ func WaitGoroutines(frame string, want int) bool {
 // FreePort asks the kernel for a currently unused loopback port.  Another process may
 // take it before it is used: callers observe the outcome instead of assuming it.
 func FreePort() (string, error) {
-	l, err := net.Listen("tcp", "127.0.0.1:0")
+	l, err := listenLoopback()
 	if err != nil {
 		return "", err
 	}
@@ -264,6 +267,23 @@ func FreePort() (string, error) {
 	_, p, _ := net.SplitHostPort(l.Addr().String())
 	return p, nil
 }
+
+// listenLoopback listens on a kernel-chosen loopback port.  With SO_REUSEADDR (Go sets
+// it on every listener) two processes can be handed the same port by bind(0) and the
+// slower one fails in listen() with EADDRINUSE; that is retried.
+func listenLoopback() (net.Listener, error) {
+	var err error
+	for i := 0; i < 50; i++ {
+		var l net.Listener
+		if l, err = net.Listen("tcp", "127.0.0.1:0"); err == nil {
+			return l, nil
+		}
+	}
+	return nil, err
+}
+
+// ListenLoopback is listenLoopback for the checks (a port held by the harness).
+func ListenLoopback() (net.Listener, error) { return listenLoopback() }
 
 // OwnListening reports whether THIS process holds a listening TCP socket on port.
 func OwnListening(port string) bool {
